@@ -5,6 +5,12 @@
 #include <stdint.h>
 #include <string.h>
 void HARNESS(void);
+#ifdef VERIF_REAL
+/* the real build has no exception/termination model: real exceptions are caught by the wrappers */
+int __verif_exc_pending, __verif_aborted, __verif_abort_expected;
+#else
+extern int __verif_exc_pending, __verif_aborted, __verif_abort_expected;
+#endif
 
 #if defined(VERIF_REPLAY)
 int main(void) {
@@ -54,6 +60,7 @@ int main(int argc, char** argv) {
   verbose = argc > 3;
   st = seed * 2654435761ULL + 88172645463325252ULL;
   for (long i = 0; i < n; i++) {
+    __verif_exc_pending = 0; __verif_aborted = 0; __verif_abort_expected = 0;
     if (setjmp(__tv_jmp) == 0) HARNESS(); else { nskip++; __tv_log("skip", 0); }
   }
   printf("TV iterations=%ld skipped=%lu log_entries=%lu witnesses=%lu assertion_failures=%lu hash=%016llx\n",
